@@ -15,7 +15,7 @@ LEVEL_TEXT = ("Exhaustive for all strands of length 0..7 (thorough: 0..8) x chec
               "single C/G/T insertion/deletion; sampled for strands up to 10 000 nt and check lengths up to 64 (across the "
               "int64 boundary at 33). Held on all of them in this run.")
 LEVEL_NOTE = "Trusts the 10-line VT formula in vlib/oracles.py (Python ints)."
-PLAN = {"quick": dict(shards=17, budget=40), "thorough": dict(shards=17, budget=400)}
+PLAN = {"quick": dict(shards=17, budget=120), "thorough": dict(shards=17, budget=600)}
 SPECIAL_SHARD = True  # the last shard runs files of the repository's own suite in-process under the contracts
 EXHAUSTIVE = ["strands<=7 (quick) / <=8 (thorough) x n in {1,2,3,5} x all single edits"]
 RULE = ("icontract ensure on dsw.set_vt (fires on the internal calls from encode/decode/repair_dna too): result == "
@@ -62,13 +62,6 @@ def generate(ctx):
     if ctx.special:
         yield "repo_tests", dict(files=ctx.pick(['tests/test_coding.py', 'tests/test_repair.py'], ['tests/test_coding.py', 'tests/test_repair.py']))
         return
-    i = 0
-    for n_len in range(0, ctx.pick(8, 9)):
-        for tup in itertools.product("ACGT", repeat=n_len):
-            if ctx.mine(i):
-                yield "exhaustive", dict(s="".join(tup))
-            i += 1
-    ctx.exhausted[EXHAUSTIVE[0]] = True
     max_len = ctx.pick(2000, 10000)
     for _ in range(ctx.pick(250, 3000)):
         kind = rng.choice(["random", "random", "ascending", "descending", "homopolymer", "two-symbol"])
@@ -99,6 +92,13 @@ def generate(ctx):
         w = G.random_walk(acc, start, rng.randint(1, 14), rng)
         yield "decode_rejects", dict(gens.graph_case(acc, k), start=int(start), walk=w, n=rng.choice([1, 2, 3, 5, 9, 33]),
                                      fast=rng.random() < 0.3)
+    i = 0
+    for n_len in range(0, ctx.pick(8, 9)):
+        for tup in itertools.product("ACGT", repeat=n_len):
+            if ctx.mine(i):
+                yield "exhaustive", dict(s="".join(tup))
+            i += 1
+    ctx.exhausted[EXHAUSTIVE[0]] = True
 
 
 def _set_vt(ctx, s, n):
